@@ -34,6 +34,12 @@ def write_tree(root, case):
     return args
 
 
+def arch_args(root, case):
+    """the argv tail write_tree returned for this case (the tree is on disk already)"""
+    return [bytes.fromhex(a['arch']) + b':' + os.path.join(root, 'in', str(k)).encode()
+            for k, a in enumerate(case['arches'])]
+
+
 def run_impl(binary, root, case, timeout=60, env=None):
     args = write_tree(root, case)
     out = os.path.join(root, 'out')
@@ -98,7 +104,12 @@ class _P(HTMLParser):
 
 def parse_index(data):
     """index.html -> {'columns': [...], 'rows': [...]} or raises ValueError.
-    Only the structure is used: table/thead/tr/th and tbody/tr/td, class attributes, a/href, text."""
+    Only the structure is used: table/thead/tr/th and tbody/tr/td, class attributes, a/href, text.
+    LENIENT (html.parser recovers from mis-nesting, keeps the last of duplicate attributes, ignores text outside the
+    table): since the third pass this reading judges nothing.  The oracle judges the matrix returned by the STRICT reader
+    written in Gallina (coq/theories/Html/HtmlParse.v parse_index, driver command judge: every tag closed in order, no
+    stray end tag, no duplicate attribute, nothing but the document regress-html.c writes; a rejection is the oracle
+    failure index-html-malformed); c14.py only cross-checks the two readings on cases whose names are plain."""
     p = _P()
     p.feed(data.decode('latin1'))
     tables = p.root.find_all('table')
